@@ -32,6 +32,8 @@ type Prog struct {
 	allFns      map[*ssa.Function]bool
 	loadSecs    float64
 	reachCache  map[*ssa.Function]map[*ssa.Function]bool
+	synth       map[string]*FuncContract
+	synthUsed   map[*ssa.Function]*FuncContract
 }
 
 func loadProg(repo, verif string, patterns []string) (*Prog, error) {
